@@ -1177,6 +1177,12 @@ func (e *Env) call(x *ECall) *SVal {
 			e.fail("atomicval: %s has no field v", pt)
 		case "addr": // addr(x): the address of location x
 			return e.evalLoc(x.Args[0])
+		case "ptrint": // ptrint(p): the address held by pointer p as an integer (for comparison with ifaceptr)
+			v := e.eval(x.Args[0])
+			if v.K != KPtr {
+				v = e.evalLoc(x.Args[0])
+			}
+			return scalar(tUPtr, KInt, v.Term)
 		case "ifaceptr": // ifaceptr(x): the pointer an interface value carries (its payload), as an untyped address
 			v := e.eval(x.Args[0])
 			if v.K != KIface {
@@ -1607,6 +1613,12 @@ func (e *Env) evalLoc(x Expr) *SVal {
 			return e.eval(x.X)
 		}
 	case *EIdent:
+		// an address-taken local variable
+		if e.f != nil && e.at != nil {
+			if p := e.f.resolveAllocLocal(x.Name, e.at); p != nil {
+				return p
+			}
+		}
 		if e.pkg != nil {
 			if o, ok := e.pkg.Scope().Lookup(x.Name).(*types.Var); ok {
 				if gv := g.P.globalVar(o); gv != nil {
